@@ -136,7 +136,7 @@ def decide(pid, tier, seed):
     known = load_known()
     notes = []
     quarantined = {}
-    for _round in range(9):
+    for _round in range(14):
         g = P.generate(quarantined=quarantined)
         gi = P.GenIndex(g["gen_text"])
         r = P.run_verus(g["gen_path"], g["gen_text"], label="main")
@@ -167,8 +167,9 @@ def decide(pid, tier, seed):
             while k >= 0 and k > t["line"] - 12:
                 mm = re.match(r"\s*// @newconst (\w+)", glines[k]) if k < len(glines) else None
                 if mm:
-                    if quarantined.get("const:" + mm.group(1), 0) < 1:
-                        quarantined["const:" + mm.group(1)] = 1
+                    curc = quarantined.get("const:" + mm.group(1), 0)
+                    if curc < 2:
+                        quarantined["const:" + mm.group(1)] = curc + 1
                         progressed_c = True
                     break
                 k -= 1
